@@ -62,7 +62,7 @@ def rule_reg(ctx):
             for n in walk_no_nested(fi.node):
                 if isinstance(n, ast.Call):
                     tgt = p.resolve_class(fi.module, n.func) if isinstance(n.func, (ast.Name, ast.Attribute)) else None
-                    if tgt is ci or (isinstance(n.func, ast.Name) and n.func.id == "cls" and fi.parent is not None and fi.parent.cls is ci):
+                    if tgt is ci or (isinstance(n.func, ast.Name) and n.func.id == "cls" and ((fi.parent is not None and fi.parent.cls is ci) or fi.cls is ci)):
                         sites.append(fi)
         ok = bool(sites) and all(s.module is ci.module for s in sites)
         ctx.check(ok, "C18.REG", f"{ci.short} constructors", f"constructed only in {sorted({s.short for s in sites})}", f"{ci.name} is constructed in {sorted({s.short for s in sites if s.module is not ci.module})}: a registration without an owner that closes it", ci=ci, text="constructors")
@@ -79,15 +79,18 @@ def rule_pair(ctx):
     # TCP: handler_func closure
     tcp = p.cls("indi.transport.server.tcp.ConnectionHandler")
     h = tcp.find_method("handler")
-    if h is None or "handler_func" not in h.nested:
-        raise Undecided("TCP ConnectionHandler.handler/handler_func not found")
-    hf = h.nested["handler_func"]
+    if h is None:
+        raise Undecided("TCP ConnectionHandler.handler not found")
+    hf = h
 
     def run(it: Interp):
+        # handler(router) hands asyncio the per-connection coroutine function: a closure, or a partial of a method
         fn = it.run_function(Fn(h, Cls(tcp)), [Term("param", "router")], {})
-        if not isinstance(fn, Fn):
-            raise Undecided("handler() does not return the nested coroutine function")
-        return it.run_function(fn, [Term("param", "reader"), Term("param", "writer")], {})
+        if isinstance(fn, Fn):
+            return it.run_function(fn, [Term("param", "reader"), Term("param", "writer")], {})
+        if isinstance(fn, Term) and fn.op == "partial" and isinstance(fn.args[0], Fn):
+            return it.run_function(fn.args[0], list(fn.args[1]) + [Term("param", "reader"), Term("param", "writer")], {k: v for k, v in fn.args[2]})
+        raise Undecided("handler() does not return a coroutine function of the repository")
 
     paths = explore(p, run, {"call_may_raise": _raise_on_wait, "inline": lambda fi, node: False})
     ctx.paths_enumerated += len(paths)
